@@ -1,7 +1,10 @@
 import JunoModel.Common.Proto
 import JunoModel.C08.Model
+import JunoModel.C08.ModelEnv
+import JunoModel.C08.ModelV
 /-!
 Line-protocol driver for the C08 model (`lake build c08drv`). All numbers are hex without prefix.
+Every request of API version X is answered by the transcription of package rpc/vX (`ModelV.lean`).
 
   reset                                         -> ok
   store <num> <hash> <parent> <root> <oldroot> <item>*  -> ok | err:rejected
@@ -21,6 +24,16 @@ Line-protocol driver for the C08 model (`lake build c08drv`). All numbers are he
         transaction index: hex, optionally negative (`-1`)
         stateUpdate takes an optional last argument f=<addr>,… (v10 contract_addresses; `f=` is
         the empty list)
+  q <ver> <be> txStatusF <hash> <feeder> <0|1>  -> getTransactionStatus with a feeder client:
+        feeder = none | err | <fin>:<exec>, fin = l2|l1|notreceived|received|preconfirmed|candidate|unknown,
+        exec = none|succeeded|reverted|rejected; last argument: the submitted-transactions cache has the hash
+  qf <flags> <ver> <be> <method> <arg>*         -> the same request with a response_flags argument:
+        flags = absent | null | x | l:<flag>,<flag>,… (`l:` is the empty list, `~` the empty string)
+  shape <ver> <method> e | p:<n> | n:<name>,…   -> pass | err:-32602  (buildArguments over the method table)
+  dump                                          -> h=<height|-> l1=<n|-|zero> nbh=<hash>:<num>,… txl=<hash>:<num>:<idx>,…
+  hdr <ver> <seq> <l1wei> <l1fri> <l1data> <l2> <da>  -> seq=… l1=<w>/<f> l1d=<w>/<f> l2=<w>/<f> da=<BLOB|CALLDATA> c=<0|1>
+        an absent (nil) value is `-`; a gas price is `-` or `<wei|->/<fri|->`; da is the core.L1DAMode number
+  hdrcfg <0|1>                                  -> ok   (rpc/v8 renders a nil L1 gas price in wei as null)
 -/
 open Juno.Proto Juno.C08
 
@@ -204,9 +217,142 @@ def parseNullRequest (method : String) (args : List String) : Option NullRequest
     pure (.storageKey a id)
   | _, _ => none
 
+
+/-! ## round 4: feeder fallback, response flags, parameter shapes, bucket dump -/
+
+def parseFFin : String → Option FFin
+  | "l2" => some .acceptedOnL2
+  | "l1" => some .acceptedOnL1
+  | "notreceived" => some .notReceived
+  | "received" => some .received
+  | "preconfirmed" => some .preConfirmed
+  | "candidate" => some .candidate
+  | "unknown" => some .unknown
+  | _ => none
+
+def parseFExec : String → Option FExec
+  | "none" => some .none
+  | "succeeded" => some .succeeded
+  | "reverted" => some .reverted
+  | "rejected" => some .rejected
+  | _ => none
+
+def parseFeeder (s : String) : Option Feeder :=
+  if s == "none" then some .absent
+  else if s == "err" then some .fails
+  else match splitOn1 s ':' with
+    | [f, e] => do
+      let f ← parseFFin f
+      let e ← parseFExec e
+      pure (.says f e)
+    | _ => none
+
+def sfinS : SFin → String
+  | .l1 => "L1"
+  | .l2 => "L2"
+  | .received => "?RECEIVED"
+  | .candidate => "?CANDIDATE"
+  | .preConfirmed => "?PRE_CONFIRMED"
+  | .rejected => "?REJECTED"
+
+def sexecS : SExec → String
+  | .none => "-"
+  | .succeeded => "0"
+  | .reverted => "1"
+
+def sreasonS : SReason → String
+  | .none => ""
+  | .revertReason => " rr"
+  | .failureReason => " fr"
+
+def renderStatus : StatusAns → String
+  | .local a => render a
+  | .internal => "err:-32603"
+  | .remote f e r => "ok " ++ sfinS f ++ " " ++ sexecS e ++ sreasonS r
+
+def parseFlags (s : String) : Option RawFlags :=
+  if s == "absent" then some .absent
+  else if s == "null" then some .null
+  else if s == "x" then some .other
+  else if s == "l:" then some (.list [])
+  else if s.startsWith "l:" then
+    some (.list ((splitOn1 (String.ofList (s.toList.drop 2)) ',').map (fun f => if f == "~" then "" else f)))
+  else none
+
+def parseMethod : String → Option Method
+  | "blockNumber" => some .blockNumber
+  | "blockHashAndNumber" => some .blockHashAndNumber
+  | "blockTxHashes" => some .blockWithTxHashes
+  | "blockTxs" => some .blockWithTxs
+  | "blockReceipts" => some .blockWithReceipts
+  | "txCount" => some .blockTransactionCount
+  | "stateUpdate" => some .stateUpdate
+  | "txByHash" => some .transactionByHash
+  | "receipt" => some .transactionReceipt
+  | "txStatus" => some .transactionStatus
+  | "txByIdx" => some .transactionByBlockIdAndIndex
+  | "storage" => some .storageAt
+  | "nonce" => some .nonce
+  | "classHashAt" => some .classHashAt
+  | "class" => some .classByHash
+  | "classAt" => some .classAt
+  | _ => none
+
+def parseShape (s : String) : Option Shape :=
+  if s == "e" then some .empty
+  else if s == "n:" then some (.named [])
+  else match splitOn1 s ':' with
+    | ["p", n] => (hexToNat? n).map .positional
+    | ["n", names] => some (.named (splitOn1 names ','))
+    | _ => none
+
+/-- First-match-wins view of an association list (what a key-value store holds after the writes
+the list records newest first), rendered sorted. -/
+def dedupKeys {β : Type} (l : List (Nat × β)) : List (Nat × β) :=
+  l.foldl (fun acc e => if acc.any (fun x => x.1 == e.1) then acc else acc ++ [e]) []
+
+def dumpNode (nd : Node) : String :=
+  let h := match height nd with | some n => natToHex n | none => "-"
+  let l1 := if nd.l1Zero then "zero" else match nd.l1 with | some n => natToHex n | none => "-"
+  let nbh := sortS ((dedupKeys nd.numByHash).map (fun e => natToHex e.1 ++ ":" ++ natToHex e.2))
+  let txl := sortS ((dedupKeys nd.txLoc).map (fun e => natToHex e.1 ++ ":" ++ natToHex e.2.1 ++ ":" ++ natToHex e.2.2))
+  "h=" ++ h ++ " l1=" ++ l1 ++ " nbh=" ++ joinOr nbh ++ " txl=" ++ joinOr txl
+
+def parseOptNat (s : String) : Option (Option Nat) :=
+  if s == "-" then some none else (hexToNat? s).map some
+
+def parsePrice (s : String) : Option (Option (Option Nat × Option Nat)) :=
+  if s == "-" then some none
+  else match splitOn1 s '/' with
+    | [w, f] => do
+      let w ← parseOptNat w
+      let f ← parseOptNat f
+      pure (some (w, f))
+    | _ => none
+
+def jvS : JV → String
+  | .null => "null"
+  | .felt n => natToHex n
+
+def priceS (p : JV × JV) : String := jvS p.1 ++ "/" ++ jvS p.2
+
+def headerS (o : HeaderOut) : String :=
+  "seq=" ++ natToHex o.seq ++ " l1=" ++ priceS o.l1 ++ " l1d=" ++ priceS o.l1Data ++ " l2=" ++ priceS o.l2 ++
+    " da=" ++ (if o.blob then "BLOB" else "CALLDATA") ++ " c=" ++ boolS o.commitments
+
+def stepHdr (hc : HdrCfg) (args : List String) : String :=
+  match args with
+  | [ver, seq, w, f, d, l2, da] =>
+    match parseVer ver, parseOptNat seq, parseOptNat w, parseOptNat f, parsePrice d, parsePrice l2, hexToNat? da with
+    | some v, some seq, some w, some f, some d, some l2, some da =>
+      headerS (adaptHeader hc v { seq := seq, l1Wei := w, l1Fri := f, l1Data := d, l2 := l2, daMode := da })
+    | _, _, _, _, _, _, _ => "bad-op"
+  | _ => "bad-op"
+
 structure St where
   nd : Node := {}
   cfg : Cfg := {}
+  hdrCfg : HdrCfg := {}
 
 def stepNode (cfg : Cfg) (nd : Node) (line : String) : Node × String :=
   match words line with
@@ -228,13 +374,29 @@ def stepNode (cfg : Cfg) (nd : Node) (line : String) : Node × String :=
     match hexToNat? n with
     | some n => (setL1 nd (some n), "ok")
     | none => (nd, "bad-op")
+  | ["dump"] => (nd, dumpNode nd)
+  | ["shape", ver, method, shape] =>
+    match parseVer ver, parseMethod method, parseShape shape with
+    | some v, some m, some sh => (nd, if shapeOk (paramsOf v m) sh then "pass" else "err:-32602")
+    | _, _, _ => (nd, "bad-op")
+  | ["q", ver, be, "txStatusF", h, fd, sub] =>
+    match parseVer ver, parseBackend be, hexToNat? h, parseFeeder fd with
+    | some v, some _, some h, some fd =>
+      if sub == "0" || sub == "1" then
+        (nd, renderStatus (transactionStatusV v { feeder := fd, submitted := sub == "1" } nd h))
+      else (nd, "bad-op")
+    | _, _, _, _ => (nd, "bad-op")
+  | "qf" :: flags :: ver :: be :: method :: args =>
+    match parseFlags flags, parseVer ver, parseBackend be, parseRequest method args with
+    | some fl, some v, some be, some r => (nd, render (serveFlaggedV cfg be v nd r fl))
+    | _, _, _, _ => (nd, "bad-op")
   | "q" :: ver :: be :: method :: args =>
     match parseVer ver, parseBackend be with
     | none, _ => (nd, "bad-op")
     | _, none => (nd, "bad-op")
     | some v, some be =>
       match parseRequest method args with
-      | some r => (nd, render (serve cfg be v nd r))
+      | some r => (nd, render (serveV cfg be v nd r))   -- the transcription of version v's own package
       | none =>
         match parseNullRequest method args with
         | some r => (nd, render (serveNull cfg be v nd r))
@@ -248,6 +410,9 @@ def step (st : St) (line : String) : St × String :=
     if (a == "0" || a == "1") && (b == "0" || b == "1") then
       ({ st with cfg := { nullCrashes := a == "1", nullNumberIsZero := b == "1" } }, "ok")
     else (st, "bad-op")
+  | ["hdrcfg", a] =>
+    if a == "0" || a == "1" then ({ st with hdrCfg := { v8WeiNull := a == "1" } }, "ok") else (st, "bad-op")
+  | "hdr" :: args => (st, stepHdr st.hdrCfg args)
   | _ =>
     let (nd', out) := stepNode st.cfg st.nd line
     ({ st with nd := nd' }, out)
